@@ -315,16 +315,45 @@ pub fn decode_rest(bytes: &[u8]) -> RestCase {
         }
         fields.push(Node::Named(n));
     }
-    fields.push(Node::Many {
-        n: Node::Any(AnySpec {
-            metavar: "REST".into(),
-            prefixes: vec![String::new()],
-            anywhere: false,
+    if u.chance(100) {
+        // a non_strict positional that finds nothing on its side of `--` and falls back
+        // (optional / fallback / fallback_with), in front of the positional that collects the
+        // rest: looking at the first right-hand item must not use it up
+        let left = Node::Pos(PosSpec {
+            id: names.id(),
+            metavar: "LEFT".into(),
+            ty: Ty::Os,
             help: None,
-        })
-        .b(),
-        catch: false,
-    });
+            strict: Strictness::NonStrict,
+        });
+        fields.push(match u.below(3) {
+            0 => Node::Optional { n: left.b(), catch: false },
+            1 => Node::Fallback { n: left.b(), value: "dflt".into(), shown: false },
+            _ => Node::FallbackWith { n: left.b(), ok: true, value: "dflt-with".into() },
+        });
+        fields.push(Node::Many {
+            n: Node::Pos(PosSpec {
+                id: names.id(),
+                metavar: "REST".into(),
+                ty: Ty::Os,
+                help: None,
+                strict: if u.bool() { Strictness::Strict } else { Strictness::Unrestricted },
+            })
+            .b(),
+            catch: false,
+        });
+    } else {
+        fields.push(Node::Many {
+            n: Node::Any(AnySpec {
+                metavar: "REST".into(),
+                prefixes: vec![String::new()],
+                anywhere: false,
+                help: None,
+            })
+            .b(),
+            catch: false,
+        });
+    }
     let level = Level::simple(Node::Seq(fields));
     argv.push(b"--".to_vec());
     let pool: &[&[u8]] = &[
@@ -352,7 +381,11 @@ fn check_rest(bytes: &[u8], ctx: &mut Ctx) -> Verdict {
     };
     let out = run(&parser, &case.argv);
     ctx.eval(1);
-    ctx.class("family:rest-collected-by-any");
+    ctx.class(if case.level.body.count_kind(true, &|n| matches!(n, Node::Any(_))) > 0 {
+        "family:rest-collected-by-any"
+    } else {
+        "family:rest-behind-a-defaulted-non-strict-positional"
+    });
     if case.right.iter().any(|w| w.starts_with(b"-")) {
         ctx.nontrivial(fnv_str(&format!("{:?}{:?}", case.level, case.argv)));
     }
